@@ -2,6 +2,6 @@
 # usage: tools/runall.sh [tier]  -- run every registered check one after the other, print the verdict lines
 cd /verif
 TIER=${1:-quick}
-for id in C01 C02 C03 C04 C05 C06 C07 C08 C09 C10 C11 C12 C13 C14 C15 C16 C17 C18 C19 C20; do
+for id in ${IDS:-C01 C02 C03 C04 C05 C06 C07 C08 C09 C10 C11 C12 C13 C14 C15 C16 C17 C18 C19 C20}; do
   ./check $id --tier $TIER 2>&1 | grep -E "^(OK|VIOLATION|KNOWN-FINDING|INCONCLUSIVE|BUILD)" | sed "s/^/$id: /"
 done
